@@ -33,19 +33,33 @@ int _setjmp(jmp_buf env) { (void) env; return 0; }
 #ifndef VF_REPLAY
 /* CBMC's built-in memcpy/memmove lose copies whose size is not a literal: word-wise C definitions instead
  * (all copies in fiber.c/vm.c move whole Janet slots or stack frames, 8-byte multiples) */
+/* slot-wise when the size is a whole number of Janet slots (struct assignment keeps every field exact; a uint64_t/byte view of
+ * a Janet array lost the type field next to the padding), byte-wise otherwise */
 void *memmove(void *d, const void *s, size_t n) {
-    uint64_t *dd = d; const uint64_t *ss = s; size_t w = n / 8;
-    __CPROVER_assert(n % 8 == 0, "copy size is a whole number of words");
-    if ((uintptr_t) dd < (uintptr_t) ss) { for (size_t i = 0; i < w; i++) dd[i] = ss[i]; }
-    else { for (size_t i = w; i > 0; i--) dd[i - 1] = ss[i - 1]; }
+    if (n % sizeof(Janet) == 0) {
+        Janet *dd = d; const Janet *ss = s; size_t w = n / sizeof(Janet);
+        if ((uintptr_t) dd < (uintptr_t) ss) { for (size_t i = 0; i < w; i++) dd[i] = ss[i]; }
+        else { for (size_t i = w; i > 0; i--) dd[i - 1] = ss[i - 1]; }
+        return d;
+    }
+    uint8_t *dd = d; const uint8_t *ss = s;
+    if ((uintptr_t) dd < (uintptr_t) ss) { for (size_t i = 0; i < n; i++) dd[i] = ss[i]; }
+    else { for (size_t i = n; i > 0; i--) dd[i - 1] = ss[i - 1]; }
     return d;
 }
 void *memcpy(void *d, const void *s, size_t n) {
-    uint64_t *dd = d; const uint64_t *ss = s; size_t w = n / 8;
-    __CPROVER_assert(n % 8 == 0, "copy size is a whole number of words");
-    for (size_t i = 0; i < w; i++) dd[i] = ss[i];
+    if (n % sizeof(Janet) == 0) {
+        Janet *dd = d; const Janet *ss = s; size_t w = n / sizeof(Janet);
+        for (size_t i = 0; i < w; i++) dd[i] = ss[i];
+        return d;
+    }
+    uint8_t *dd = d; const uint8_t *ss = s;
+    for (size_t i = 0; i < n; i++) dd[i] = ss[i];
     return d;
 }
+/* util.c's safe_memcpy is body-removed by the E9 harnesses (its memcpy call binds to CBMC's built-in model, which loses copies
+ * of non-literal size: closure environments came out empty); same semantics, local copy loop */
+void safe_memcpy(void *dest, const void *src, size_t len) { if (!len) return; memcpy(dest, src, len); }
 #endif
 
 static void vf_vm_init(void) {
